@@ -579,7 +579,7 @@ class Ctx:
             vio_lines.append("VIOLATION property=%s replay=%s no-failing-input-found" % (self.prop, path))
         elif self.broken:
             for k, n, d in self.broken[:6]:
-                print("  broken %s: %s" % (k, n))
+                print("  broken %s: %s  %s" % (k, n, str(d)[:400]))
         for f in self.known_hits:
             print("KNOWN-FINDING: property=%s %s" % (self.prop, f["what"]))
         cov = dict(self.cov)
